@@ -623,7 +623,10 @@ class Interp:
                 f2.is_comp = True
                 self.assign(g.target, x, f2)
                 return elt_fn(f2)
-            return seq.map(body, kind)
+            res = seq.map(body, kind)
+            if self.theory is not None:
+                self.theory.after_seq_map(self, res, seq)
+            return res
         return self._comp_concrete(e, fr, elt_fn, kind)
 
     def _comp_concrete(self, e, fr, elt_fn, kind):
